@@ -11,8 +11,12 @@ ENTRY = dict(
          "(payload compressed ahead of time), +ALPS, +CertificateRequest, TLS 1.2) x target message x 19 mutations (bit flips, random "
          "byte, header length up/down, u8/u16/u24 field edits, truncation with/without header fix, extension with/without fix, "
          "duplication, type swap, drop, reorder with the next message, 16 MiB declared, empty body, zero / ff fill) applied to the "
-         "plaintext before transcript and encryption; 6 post-handshake messages (NewSessionTicket incl. early_data and 60 KiB label, "
-         "300-ticket flood, KeyUpdate x40, stray EncryptedExtensions / CompressedCertificate) under the same mutations; targeted: "
+         "plaintext before transcript and encryption; post-handshake messages on TLS 1.3 AND TLS 1.2 (HelloRequest x1/x5/with body, "
+         "NewSessionTicket incl. early_data, 60 KiB label and 300-ticket flood, KeyUpdate x1/x40, stray EncryptedExtensions / "
+         "CompressedCertificate / ServerHelloDone / Finished; every client meets a plain TLS 1.2 HelloRequest) under the same mutations, "
+         "the client writing before and after its Reads; decompression bombs per algorithm (48-96 MiB of zeros in < 64 KiB, declared "
+         "1000 and 262144) through decompressCert and live; ServerHello key_share of 0/1/31/32/33/size-1/size/size+1 bytes for every "
+         "group the client sent a share for (hybrid groups all lengths, classical three per client); targeted: "
          "declared 16 MiB / max / max+1, zstd Window_Size 512 / 64 / 8 MiB, brotli WBITS 24 + 16 MiB meta-block, 256 KiB of zeros; "
          "HelloRetryRequest cookies of 1 / 32 / 4000 bytes against custom specs with 1..4 extensions (cookie position checked "
          "against the model), a 65000-byte cookie and a 60000-byte ALPS value against real parrots, resumption followed by a "
